@@ -1,7 +1,7 @@
 """Configuration of ./check for C10 (see tools/props.py)."""
 ENTRY = {'coq_dir': 'C10',
  'harness': 'c10',
- 'cases': {'quick': 330, 'thorough': 2200},
+ 'cases': {'quick': 372, 'thorough': 2242},
  'consts': ['MAX_ADDRESSES',
             'SCORE_CONNECTION_ESTABLISHED',
             'SCORE_CONNECTION_FAILURE_NEG',
@@ -18,7 +18,7 @@ ENTRY = {'coq_dir': 'C10',
          'variant (23 in this build: Timeout, 5 AddressError, 2 DnsError, 15 NegotiationError incl. the 6 ParseError kinds and WebSocket; values '
          'built by an exhaustive, wildcard-free table in the harness) on one stored address per variant, followed by a rediscovery of all addresses '
          'and the dial order; plus a saturation case (raw AddressStore inserts of i32::MIN, MIN+1, -100, -1, 0, 1, 100, MAX-1, MAX on new global and '
-         'private addresses, then overwritten, failed, established, rediscovered). Then 4 IP-classification cases: the node listens on '
+         'private addresses, then overwritten, failed, established, rediscovered). Then 42 mixed-outcome cases (6 orders of the reports of the transports x the 7 prior scores): peer 1 has one address per DialError kind on EVERY installed transport (23 TCP + 23 WebSocket; 21 per transport in the QUIC build), one dial(peer) whose selection spans all of them; order 0: every other transport reports OpenFailure for all of its addresses (attempt i failing with kind codes[(i+shift) mod n], so every kind occurs), THEN WebSocket reports ConnectionOpened on its first address and the connection is established; 1: WebSocket opens first, the OpenFailure of the others arrives afterwards; 2/3: the same with TCP connecting; 4: one transport fails before and one after a ConnectionOpened that carries the errors of three earlier attempts; 5: every transport fails; then addresses(limit), a second dial in which everything fails, a rediscovery. Then 4 IP-classification cases: the node listens on '
          '/ip4/0.0.0.0/tcp/30 and, for ~1270 concrete addresses (first, last and neighbouring addresses of every range std / ip_network 0.4.1 treat '
          'specially: 0/8, 10/8, 100.64/10, 127/8, 169.254/16, 172.16/12, 192.0.0/24 with the two global exceptions, 192.0.2/24, 192.168/16, '
          '198.18/15, 198.51.100/24, 203.0.113/24, 224/4, 240/4, broadcast; two addresses of every /8; for IPv6 the neighbourhood of :: and ::1, '
@@ -34,7 +34,7 @@ ENTRY = {'coq_dir': 'C10',
          "manager's update functions, raw AddressStore inserts with scores from the whole i32 range, AddressStore::addresses(limit), stateless "
          'probes, holding 0..8 established outbound connections to other peers, whole TransportManager::dial(peer) episodes on scripted transports '
          "(the address lists handed to each transport's open() are recorded, then either every attempt fails or one attempt succeeds after the "
-         'earlier ones on its transport failed; attempt i fails with kind errs[i mod |errs|]), whole TransportManager::dial_address episodes (stored '
+         'earlier ones on its transport failed while each other transport of the selection - a base-3 digit of outcome / n - stays silent, reports OpenFailure for all its addresses before the ConnectionOpened event or after it; attempt i fails with kind errs[i mod |errs|]), whole TransportManager::dial_address episodes (stored '
          '/ fresh / arbitrary shapes / registered listen addresses under the local or another peer id; then a DialFailure event of a random kind, '
          "ConnectionEstablished + accept + close, or - one in eight - the transport's dial() returning an error), PublicAddresses add/remove; half "
          "of the long cases push >64 distinct addresses into one peer's store. Every 8th random case runs at the level of Litep2p: Litep2p::new with "
@@ -105,7 +105,7 @@ ENTRY = {'coq_dir': 'C10',
                'score and a new one is remembered as untested; addresses(limit) is a non-increasing top-min(limit,n) selection and its validator is '
                'sound and satisfiable; when dial(peer) tries addresses, the lists given to the TCP / WebSocket / QUIC transports merge into a valid '
                'addresses(limit) selection with limit = max_outgoing_connections minus established outbound connections (everything when unlimited), '
-               'each address goes to the installed transport it is routed to, and the outcome re-scores exactly the attempts made; public addresses '
+               'each address goes to the installed transport it is routed to, and the outcome re-scores exactly the attempts made - also when the selection spans several transports and some of them report OpenFailure before or after the ConnectionOpened of another one: every address reported failed carries the score of its error kind, the opened address the established score, nothing else changes (C10_dial_mixed_outcome, C10_dial_outcome_is_mixed); public addresses '
                'always end in /p2p/<local>, the listen set holds each address with and without /p2p/<local>. The five places where the manager '
                "writes into a peer's store and the ten places of the crate where an address is offered to the book (none in identify.rs / mdns.rs) "
                'are extracted from the source and proved to be the ones the model covers. KademliaPeer.address_store as modelled by C14 is proved an '
@@ -139,7 +139,7 @@ ENTRY = {'coq_dir': 'C10',
                 'features': 'quic,rsa',
                 'target_dir': 'target-quic',
                 'args': '',
-                'cases': {'quick': 110, 'thorough': 900},
+                'cases': {'quick': 152, 'thorough': 942},
                 'corpus': 'corpus/C10-aux'},
  'coq_deps': ['C14'],
  'clause_map': [['an address offered for a peer is remembered only if it names that peer',
@@ -168,10 +168,10 @@ ENTRY = {'coq_dir': 'C10',
                  'main: evicted records logged by AddressStore::insert are model inputs (validated); oracle kept_or_min / count_gone <= count_new'],
                 ['dial successes and failures re-score exactly the address used',
                  'C10_rescore_exact, C10_failure_rescores_any_kind, C10_dial_failure_step, C10_established_step, C10_dial_address_known_step, '
-                 'C10_dial_address_new_step, C10_dial_address_refused_step, C10_dial_all_fail, C10_dial_success, C10_error_score_negative, '
+                 'C10_dial_address_new_step, C10_dial_address_refused_step, C10_dial_all_fail, C10_dial_success, C10_dial_mixed_outcome, C10_dial_outcome_is_mixed, C10_dial_first_transport_failure_counts, C10_error_score_negative, '
                  'C10_address_error_only_banned, C10_error_score_table, C10_success_score_positive, C10_error_variants_in_sync, '
                  'C10_error_kinds_enumerated, C10_store_sites_in_sync, C10_kad_rescore_exact',
-                 'main + aux: 43-case sweep (6 paths x 7 prior scores x every DialError kind; 26 kinds in aux); oracle rescore_ok / outcome_ok'],
+                 'main + aux: 43-case sweep (6 paths x 7 prior scores x every DialError kind; 26 kinds in aux) and 42-case mixed-outcome block (6 orders of OpenFailure / ConnectionOpened across transports x 7 prior scores x every kind); oracle rescore_ok / outcome_ok (every address reported failed in an OpenFailure of any transport or in ConnectionOpened.errors strictly negative, the opened address at CONNECTION_ESTABLISHED, the rest unchanged)'],
                 ['and are not erased by later rediscovery',
                  'C10_rediscovery_keeps, C10_additions_keep_scores, C10_insert_frame',
                  'main: every sweep case ends with a rediscovery of all addresses; oracle add_ok (kept_or_min)'],
